@@ -296,6 +296,347 @@ theorem C31_read_all (t : Tree) (k i : Nat) (chunks : List Chunk) (bufs : List N
   have he := h3 hl
   exact Prod.ext (h1 he) he
 
+/-! ## remove -/
+
+theorem lookup_erase (it : Items) (k k' : SKey) :
+    lookup (erase it k) k' = if k' = k then none else lookup it k' := by
+  induction it with
+  | nil => simp [erase, lookup]
+  | cons e rest ih =>
+    by_cases he : e.1 = k
+    · rw [show erase (e :: rest) k = erase rest k by simp [erase, he], ih]
+      by_cases hk : k' = k
+      · simp [hk]
+      · have : ¬ e.1 = k' := by rw [he]; exact fun x => hk x.symm
+        simp [hk, lookup, this]
+    · rw [show erase (e :: rest) k = e :: erase rest k by simp [erase, he]]
+      by_cases he' : e.1 = k'
+      · have : ¬ k' = k := by rw [← he']; exact he
+        simp [lookup, he', this]
+      · simp only [lookup, he', ↓reduceIte]; exact ih
+
+theorem remove_lookup (t : Tree) (k k' : SKey) :
+    lookup (t.remove k).1.items k' = if k' = k then none else lookup t.items k' := by
+  unfold Tree.remove Tree.find
+  cases hl : lookup t.items k with
+  | none =>
+    simp only
+    by_cases hk : k' = k
+    · simp [hk, hl]
+    · simp [hk]
+  | some v =>
+    simp only [↓reduceIte]
+    unfold Tree.removeCurrent
+    simp only [hl]
+    exact lookup_erase _ _ _
+
+theorem removeKeys_lookup (ks : List SKey) : ∀ (t : Tree) (k' : SKey),
+    lookup (removeKeys t ks).1.items k' = if k' ∈ ks then none else lookup t.items k' := by
+  induction ks with
+  | nil => intro t k'; simp [removeKeys]
+  | cons k ks ih =>
+    intro t k'
+    unfold removeKeys
+    simp only
+    rw [ih, remove_lookup]
+    by_cases h1 : k' = k
+    · simp [h1]
+    · by_cases h2 : k' ∈ ks
+      · simp [h2]
+      · simp [h1, h2]
+
+theorem next_items (t : Tree) : t.next.1.items = t.items := by
+  unfold Tree.next
+  cases t.cur with
+  | none => rfl
+  | some c => simp only; cases succ t.items c <;> rfl
+
+theorem collect_items (key : Nat) : ∀ (fuel : Nat) (t : Tree) (acc : List SKey),
+    (collect fuel t key acc).1.items = t.items := by
+  intro fuel
+  induction fuel with
+  | zero => intro t acc; rfl
+  | succ f ih =>
+    intro t acc
+    unfold collect
+    simp only
+    split
+    · rw [ih]; exact next_items t
+    · exact next_items t
+
+theorem collect_keys (key : Nat) : ∀ (fuel : Nat) (t : Tree) (acc : List SKey),
+    ∀ sk ∈ (collect fuel t key acc).2, sk ∈ acc ∨ sk.key = key := by
+  intro fuel
+  induction fuel with
+  | zero => intro t acc sk h; exact Or.inl h
+  | succ f ih =>
+    intro t acc sk h
+    unfold collect at h
+    simp only at h
+    split at h
+    · rcases ih _ _ sk h with h | h
+      · rcases List.mem_append.1 h with h | h
+        · exact Or.inl h
+        · simp only [List.mem_singleton] at h; exact Or.inr (by rw [h])
+      · exact Or.inr h
+    · rcases List.mem_append.1 h with h | h
+      · exact Or.inl h
+      · simp only [List.mem_singleton] at h; exact Or.inr (by rw [h])
+
+theorem collect_acc (key : Nat) : ∀ (fuel : Nat) (t : Tree) (acc : List SKey),
+    ∀ sk ∈ acc, sk ∈ (collect fuel t key acc).2 := by
+  intro fuel
+  induction fuel with
+  | zero => intro t acc sk h; exact h
+  | succ f ih =>
+    intro t acc sk h
+    unfold collect
+    simp only
+    split
+    · exact ih _ _ sk (List.mem_append_left _ h)
+    · exact List.mem_append_left _ h
+
+/-- how many stored keys lie above `c` (what bounds the `Next` loop) -/
+def above (it : Items) (c : SKey) : Nat := (it.filter (fun e => decide (c.lt e.1))).length
+
+theorem filter_length_le {α : Type} (l : List α) (p q : α → Bool) (hpq : ∀ x, p x = true → q x = true) :
+    (l.filter p).length ≤ (l.filter q).length := by
+  induction l with
+  | nil => simp
+  | cons x xs ih =>
+    simp only [List.filter_cons]
+    cases hp : p x <;> cases hq : q x <;> simp <;> try omega
+    have := hpq x hp; rw [hq] at this; cases this
+
+theorem filter_length_lt {α : Type} (l : List α) (p q : α → Bool) (hpq : ∀ x, p x = true → q x = true)
+    (hex : ∃ x ∈ l, q x = true ∧ p x = false) : (l.filter p).length < (l.filter q).length := by
+  induction l with
+  | nil => obtain ⟨x, hx, _⟩ := hex; cases hx
+  | cons x xs ih =>
+    obtain ⟨y, hy, hqy, hpy⟩ := hex
+    have hle := filter_length_le xs p q hpq
+    simp only [List.filter_cons]
+    rcases List.mem_cons.1 hy with rfl | hy
+    · simp [hqy, hpy]; omega
+    · have := ih ⟨y, hy, hqy, hpy⟩
+      cases hp : p x <;> cases hq : q x <;> simp <;> try omega
+      have := hpq x hp; rw [hq] at this; cases this
+
+theorem above_lt {it : Items} {c m : SKey} (hcm : c.lt m) (hm : ∃ e ∈ it, e.1 = m) : above it m < above it c := by
+  unfold above
+  apply filter_length_lt
+  · intro x hx
+    simp only [decide_eq_true_eq] at hx ⊢
+    unfold SKey.lt at *; omega
+  · obtain ⟨e, he, hk⟩ := hm
+    refine ⟨e, he, ?_, ?_⟩
+    · simp only [decide_eq_true_eq]; rw [hk]; exact hcm
+    · simp only [decide_eq_false_iff_not]; rw [hk]; unfold SKey.lt; omega
+
+/-- the `Next` loop of `RemoveCurrentItem` collects every stored chunk key of the entry from the
+cursor onwards, provided the fuel exceeds the number of keys above the cursor -/
+theorem collect_complete (key : Nat) : ∀ (fuel : Nat) (t : Tree) (ic : Nat) (acc : List SKey),
+    t.cur = some ⟨key, ic⟩ → above t.items ⟨key, ic⟩ < fuel →
+    ∀ i, ic ≤ i → (∃ v, lookup t.items ⟨key, i⟩ = some v) → (⟨key, i⟩ : SKey) ∈ (collect fuel t key acc).2 := by
+  intro fuel
+  induction fuel with
+  | zero => intro t ic acc _ h; omega
+  | succ f ih =>
+    intro t ic acc hcur hfuel i hi hst
+    obtain ⟨items, cur⟩ := t
+    simp only at hcur hfuel hst
+    subst hcur
+    have hself : (⟨key, ic⟩ : SKey) ∈ acc ++ [⟨key, ic⟩] := List.mem_append_right _ List.mem_cons_self
+    obtain ⟨v, hv⟩ := hst
+    obtain ⟨e, he, hek⟩ := mem_of_lookup hv
+    cases hs : succ items ⟨key, ic⟩ with
+    | none =>
+      simp only [collect, Tree.currentKey, Tree.next, hs, Option.getD_some, Bool.false_eq_true, false_and, ↓reduceIte]
+      by_cases hii : i = ic
+      · rw [hii]; exact hself
+      · exfalso
+        apply succ_none hs e he
+        rw [hek]; exact Or.inr ⟨rfl, show ic < i by omega⟩
+    | some m =>
+      obtain ⟨h1, h2, h3⟩ := succ_some hs
+      simp only [collect, Tree.currentKey, Tree.next, hs, Option.getD_some, true_and]
+      by_cases hmk : m.key = key
+      · simp only [hmk, ↓reduceIte]
+        by_cases hii : i = ic
+        · rw [hii]; exact collect_acc key f _ _ _ hself
+        · have hm : m = ⟨key, m.idx⟩ := by rw [skey_eq_iff]; exact ⟨hmk, rfl⟩
+          have hge : m.idx ≤ i := by
+            have := h3 e he (by rw [hek]; exact Or.inr ⟨rfl, show ic < i by omega⟩)
+            rw [hek] at this
+            unfold SKey.lt at this h1; simp only at this h1; omega
+          apply ih ⟨items, some m⟩ m.idx _ (by rw [← hm]) _ i hge ⟨v, hv⟩
+          have := above_lt h1 h2
+          simp only
+          rw [← hm]; omega
+      · simp only [hmk, ↓reduceIte]
+        by_cases hii : i = ic
+        · rw [hii]; exact hself
+        · exfalso
+          have := h3 e he (by rw [hek]; exact Or.inr ⟨rfl, show ic < i by omega⟩)
+          rw [hek] at this
+          unfold SKey.lt at this h1; simp only at this h1; omega
+
+/-- **C31_remove_local.** `Remove(key)` changes no chunk of any other entry; when the entry exists
+(its chunk 0 is stored) every chunk `(key, i)` of it is gone afterwards, whatever the indices; when
+it does not exist nothing changes. -/
+theorem C31_remove_local (t : Tree) (key : Nat) :
+    (∀ sk : SKey, sk.key ≠ key → lookup (opRemove t key).1.items sk = lookup t.items sk) ∧
+    ((∃ v, lookup t.items ⟨key, 0⟩ = some v) → ∀ i, lookup (opRemove t key).1.items ⟨key, i⟩ = none) ∧
+    (lookup t.items ⟨key, 0⟩ = none → (opRemove t key).1.items = t.items ∧ (opRemove t key).2 = .removed false) := by
+  unfold opRemove findOne Tree.find
+  cases hl : lookup t.items ⟨key, 0⟩ with
+  | none => simp
+  | some v =>
+    simp only [↓reduceIte, reduceCtorEq, false_implies, and_true]
+    unfold removeCurrentEntry
+    simp only [Tree.currentKey, Option.getD_some]
+    constructor
+    · intro sk hsk
+      rw [removeKeys_lookup, collect_items]
+      have : sk ∉ (collect (fuelOf { items := t.items, cur := some ⟨key, 0⟩ }) { items := t.items, cur := some ⟨key, 0⟩ } key []).2 := by
+        intro hmem
+        rcases collect_keys key _ _ _ sk hmem with h | h
+        · cases h
+        · exact hsk h
+      simp [this]
+    · intro _ i
+      rw [removeKeys_lookup, collect_items]
+      cases hi : lookup t.items ⟨key, i⟩ with
+      | none => simp
+      | some w =>
+        have hmem := collect_complete key (fuelOf { items := t.items, cur := some ⟨key, 0⟩ })
+          { items := t.items, cur := some ⟨key, 0⟩ } 0 [] rfl
+          (by unfold fuelOf above; simp only; exact Nat.lt_succ_of_le (List.length_filter_le _ _))
+          i (Nat.zero_le _) ⟨w, hi⟩
+        simp [hmem]
+
+/-! ## add, then read: the round trip -/
+
+theorem lookup_insert {it : Items} {k : SKey} (v : Chunk) (k' : SKey) (h : lookup it k = none) :
+    lookup (Stream.insert it k v) k' = if k' = k then some v else lookup it k' := by
+  induction it with
+  | nil =>
+    by_cases hk : k' = k
+    · simp [Stream.insert, lookup, hk]
+    · have : ¬ k = k' := fun x => hk x.symm
+      simp [Stream.insert, lookup, hk, this]
+  | cons e rest ih =>
+    have he : ¬ e.1 = k := by
+      intro he; simp [lookup, he] at h
+    have hrest : lookup rest k = none := by simpa [lookup, he] using h
+    unfold Stream.insert
+    by_cases hlt : k.lt e.1
+    · simp only [hlt, ↓reduceIte]
+      by_cases hk : k' = k
+      · simp [lookup, hk]
+      · have : ¬ k = k' := fun x => hk x.symm
+        simp [lookup, hk, this]
+    · simp only [hlt, ↓reduceIte]
+      unfold lookup
+      by_cases he' : e.1 = k'
+      · have : ¬ k' = k := by rw [← he']; exact he
+        simp [he', this]
+      · simp only [he', ↓reduceIte]; exact ih hrest
+
+/-- `Add(k)` followed by one `Encode` per value stores the values as chunks `i, i+1, …` of `k`,
+touches nothing else and does not move the cursor -/
+theorem writeAll_add (k : Nat) : ∀ (vals : List Chunk) (t : Tree) (i : Nat),
+    (∀ j, lookup t.items ⟨k, i + j⟩ = none) →
+    (writeAll t ⟨k, i, true⟩ vals).2.2 = true ∧
+    Holds (writeAll t ⟨k, i, true⟩ vals).1.items k i vals ∧
+    (writeAll t ⟨k, i, true⟩ vals).1.cur = t.cur ∧
+    (∀ sk : SKey, (sk.key ≠ k ∨ sk.idx < i) → lookup (writeAll t ⟨k, i, true⟩ vals).1.items sk = lookup t.items sk) ∧
+    (writeAll t ⟨k, i, true⟩ vals).2.1.addMode = true := by
+  intro vals
+  induction vals with
+  | nil =>
+    intro t i h
+    refine ⟨rfl, ?_, rfl, fun _ _ => rfl, rfl⟩
+    have := h 0
+    simpa [Holds, writeAll] using this
+  | cons p ps ih =>
+    intro t i h
+    have h0 : lookup t.items ⟨k, i⟩ = none := by simpa using h 0
+    have hw : Writer.write t ⟨k, i, true⟩ p = ({ t with items := Stream.insert t.items ⟨k, i⟩ p }, ⟨k, i + 1, true⟩, true) := by
+      simp [Writer.write, Tree.add, h0]
+    unfold writeAll
+    rw [hw]
+    simp only
+    have hnext : ∀ j, lookup (Stream.insert t.items ⟨k, i⟩ p) ⟨k, i + 1 + j⟩ = none := by
+      intro j
+      rw [lookup_insert p _ h0]
+      have : ¬ (⟨k, i + 1 + j⟩ : SKey) = ⟨k, i⟩ := by rw [skey_eq_iff]; simp only; omega
+      simp only [this, ↓reduceIte]
+      have := h (1 + j)
+      rwa [← Nat.add_assoc] at this
+    obtain ⟨h1, h2, h3, h4, h5⟩ := ih { t with items := Stream.insert t.items ⟨k, i⟩ p } (i + 1) hnext
+    refine ⟨h1, ⟨?_, h2⟩, h3, ?_, h5⟩
+    · rw [h4 ⟨k, i⟩ (Or.inr (by simp))]
+      simp only
+      rw [lookup_insert p _ h0]; simp
+    · intro sk hsk
+      rw [h4 sk (by rcases hsk with h | h; exact Or.inl h; exact Or.inr (by omega))]
+      simp only
+      rw [lookup_insert p _ h0]
+      have : ¬ sk = ⟨k, i⟩ := by
+        rw [skey_eq_iff]; simp only
+        rcases hsk with h | h
+        · exact fun x => h x.1
+        · exact fun x => by omega
+      simp [this]
+
+/-- **C31 round trip.** On a store holding no chunk of `k`: `Add(k)`, encode the values, `Close`;
+then `FindOne(k)`, `GetCurrentValue()` and reading with any positive buffer sizes until EOF yields
+exactly the concatenation of the encoded values (≥ 1 value), for values of any sizes. -/
+theorem C31_add_then_read_all (t : Tree) (k : Nat) (v : Chunk) (vs : List Chunk) (bufs : List Nat)
+    (habsent : ∀ j, lookup t.items ⟨k, j⟩ = none) (hpos : ∀ b ∈ bufs, 0 < b) :
+    (opAdd t k (v :: vs)).2 = .ok ∧
+    ∃ r, (opOpen (opAdd t k (v :: vs)).1 k).2 = some r ∧
+      ((readAll true (opOpen (opAdd t k (v :: vs)).1 k).1 r bufs).2 = true →
+        (readAll true (opOpen (opAdd t k (v :: vs)).1 k).1 r bufs).1 = (v :: vs).flatten) ∧
+      (((v :: vs).flatten.length + (v :: vs).length < bufs.length) →
+        readAll true (opOpen (opAdd t k (v :: vs)).1 k).1 r bufs = ((v :: vs).flatten, true)) := by
+  obtain ⟨h1, h2, _, _, h5⟩ := writeAll_add k (v :: vs) t 0 (by simpa using habsent)
+  have hadd : (opAdd t k (v :: vs)).1 = (writeAll t ⟨k, 0, true⟩ (v :: vs)).1 := by
+    simp [opAdd, close, h5]
+  have hout : (opAdd t k (v :: vs)).2 = .ok := by
+    simp [opAdd, close, h1, h5]
+  refine ⟨hout, ?_⟩
+  rw [hadd]
+  have hl : lookup (writeAll t ⟨k, 0, true⟩ (v :: vs)).1.items ⟨k, 0⟩ = some v := h2.1
+  have hopen : opOpen (writeAll t ⟨k, 0, true⟩ (v :: vs)).1 k =
+      ({ (writeAll t ⟨k, 0, true⟩ (v :: vs)).1 with cur := some ⟨k, 0⟩ }, some (Reader.new k 0)) := by
+    simp [opOpen, findOne, Tree.find, hl, Tree.currentKey]
+  rw [hopen]
+  refine ⟨Reader.new k 0, rfl, ?_⟩
+  obtain ⟨a, _, c⟩ := C31_read_all { (writeAll t ⟨k, 0, true⟩ (v :: vs)).1 with cur := some ⟨k, 0⟩ } k 0 (v :: vs) bufs rfl h2 hpos
+  exact ⟨a, c⟩
+
+/-! ## update (statement only) -/
+
+/-- entry `k` consists of exactly the chunks `cs` -/
+def Entry (it : Items) (k : Nat) (cs : List Chunk) : Prop := ∀ i, lookup it ⟨k, i⟩ = cs[i]?
+
+/-- `C31_update_replaces` as stated in DESIGN.md. NOT proved in this file: it is covered by the
+correspondence run (the model's `opUpdate` is diffed against the real `Update`/`Encode`/`Close`, with a
+dump of the remaining chunk keys after every update) and by the direct oracle `C31/leftover-chunk`. -/
+def Statement_C31_update_replaces : Prop :=
+  ∀ (t : Tree) (k : Nat) (old vals : List Chunk), old ≠ [] → Entry t.items k old →
+    (opUpdate t k vals).2 = .ok ∧ Entry (opUpdate t k vals).1.items k vals ∧
+    ∀ sk : SKey, sk.key ≠ k → lookup (opUpdate t k vals).1.items sk = lookup t.items sk
+
+/-- one instance of it, computed: a 3-chunk entry updated with 1 value keeps exactly that value and the
+neighbouring entries -/
+theorem C31_update_sample :
+    let t : Tree := ⟨[(⟨1, 0⟩, [9]), (⟨2, 0⟩, [1]), (⟨2, 1⟩, [2]), (⟨2, 2⟩, [3]), (⟨3, 0⟩, [8])], none⟩
+    (opUpdate t 2 [[7, 7]]).1.items = [(⟨1, 0⟩, [9]), (⟨2, 0⟩, [7, 7]), (⟨3, 0⟩, [8])] ∧ (opUpdate t 2 [[7, 7]]).2 = .ok := by
+  decide
+
 /-- The pinned tree's reader violates the statement: three 3-byte chunks read through a 2-byte
 buffer come back with every chunk's tail followed by the whole chunk again. -/
 theorem C31_unrepaired_counterexample :
